@@ -583,6 +583,16 @@ func runEntry(cfg Config, prog *symex.Program, e entryInfo, findings []Finding) 
 				regions = append(regions, regionTerm(f, prefix))
 			}
 			syms := symsFor(ar.Draws, q)
+			// vacuity twin: the assertion point is reachable
+			if _, done := res.Reach[ar.Label]; !done {
+				rr, mm := router.CheckModel(ar.PC, symsFor(ar.Draws, ar.PC))
+				if rr == smt.Sat {
+					res.Reach[ar.Label] = modelToStrings(mm)
+					if p.Outcome == "return" {
+						res.witnessFor[ar.Label] = mm
+					}
+				}
+			}
 			if len(fs) > 0 {
 				// new violations first: outside all listed regions
 				qOut := append(append([]*smt.Term(nil), q...), smt.Not(smt.Or(regions...)))
@@ -621,21 +631,11 @@ func runEntry(cfg Config, prog *symex.Program, e entryInfo, findings []Finding) 
 			default:
 				ob.Verdict = "unknown"
 			}
-			// vacuity twin: the assertion point is reachable
-			if _, done := res.Reach[ar.Label]; !done {
-				rr, mm := router.CheckModel(ar.PC, symsFor(ar.Draws, ar.PC))
-				if rr == smt.Sat {
-					res.Reach[ar.Label] = modelToStrings(mm)
-					if p.Outcome == "return" {
-						res.witnessFor[ar.Label] = mm
-					}
-				}
-			}
 		}
 		if p.Outcome == "return" && len(res.valCases) < 8 {
 			clean := true
 			for _, ef := range p.Effects {
-				if ef.Name == "select" {
+				if ef.Name == "select" || ef.Name == "spawn" {
 					clean = false // scheduler choices cannot be scripted natively
 				}
 			}
